@@ -536,7 +536,7 @@ def run(tier, seed, pool, t0):
     from mc import report
     from mc.explore import ConfigStats
     from mc.runner import COMMON_ASSUMPTIONS
-    depth = 5 if tier == 'quick' else 7
+    depth = 5 if tier == 'quick' else 9
     ngroups = 6 if tier == 'quick' else 12
     ctx = multiprocessing.get_context('spawn')
     workers = []
